@@ -48,11 +48,12 @@ int sm9_exch_step_1B(const SM9_EXCH_MASTER_KEY *mpk, const char *idA, size_t idA
 	uint8_t g1[32 * 12], g2[32 * 12], g3[32 * 12];
 	uint8_t ta[65], tb[65];
 	SM3_KDF_CTX kdf_ctx;
+	SM9_Z256_POINT Q;
 
 	// B1: Q = H1(ID_A||hid,N) * P1 + Ppube
 	sm9_z256_hash1(rB, idA, idAlen, SM9_HID_EXCH);
-	sm9_z256_point_mul(RB, rB, sm9_z256_generator());
-	sm9_z256_point_add(RB, RB, &mpk->Ppube);
+	sm9_z256_point_mul(&Q, rB, sm9_z256_generator());
+	sm9_z256_point_add(&Q, &Q, &mpk->Ppube);
 
 	do {
 		// B2: rand rB in [1, N-1]
@@ -63,7 +64,7 @@ int sm9_exch_step_1B(const SM9_EXCH_MASTER_KEY *mpk, const char *idA, size_t idA
 		}
 
 		// B3: RB = rB * Q
-		sm9_z256_point_mul(RB, rB, RB);
+		sm9_z256_point_mul(RB, rB, &Q);
 
 		// B4: check RA on curve; G1 = e(RA, deB), G2 = e(Ppube, P2) ^ rB, G3 = G1 ^ rB
 		if (!sm9_z256_point_is_on_curve(RA)) {
